@@ -455,6 +455,20 @@ func famC17(g *Gen, o *Out, n int, thorough bool) {
 				}
 			}
 		}
+		forcedP := ""
+		if c%3 == 2 && c < 30 {
+			// fixed corpus for the command-line pass: a link inside the output directory that leads to a
+			// neighbour, and a -p path that runs through it to something the neighbour really has
+			if fi, err := os.Lstat(outArg); err == nil && fi.IsDir() {
+				k := (c / 3) % 4
+				name := []string{"a", "evil", "sub", "x"}[k]
+				tgt := []string{"../victim", filepath.Join(sb, "victim"), "../out-old", "../victim"}[k]
+				os.Remove(filepath.Join(sb, realOut, name))
+				if os.Symlink(tgt, filepath.Join(sb, realOut, name)) == nil {
+					forcedP = name + "/" + []string{"d", "f", "sub", "d/g"}[k]
+				}
+			}
+		}
 		// the archive
 		d := newUfsDag()
 		nroots := 1
@@ -529,12 +543,29 @@ func famC17(g *Gen, o *Out, n int, thorough bool) {
 		for _, r := range rstore.Roots() {
 			rootStrs = append(rootStrs, traceRoot(ctx, &ls, r))
 		}
-		// the tool
+		// the tool: the library entry point in process (modelled event by event), or — every third case —
+		// the built binary with its own argument handling, -p paths and error clean-up (containment only)
 		var logb bytes.Buffer
 		var xerr error
-		for _, r := range rstore.Roots() {
-			if _, xerr = lib.ExtractToDir(ctx, &ls, r, outArg, []string{}, false, &logb); xerr != nil {
-				break
+		useCli := c%3 == 2
+		cliPath := ""
+		if useCli {
+			args := []string{"extract", "-f", carPath}
+			if g.pick(2) == 0 {
+				cliPath = []string{"a", "a/b", "evil", "evil/x", "sub/a", "b/c/d", "x", "a/d", "x/d/g"}[g.pick(9)]
+			}
+			if forcedP != "" {
+				cliPath = forcedP
+			}
+			if cliPath != "" {
+				args = append(args, "-p", cliPath)
+			}
+			_, _, xerr = runCar(nil, sb, append(args, outArg)...)
+		} else {
+			for _, r := range rstore.Roots() {
+				if _, xerr = lib.ExtractToDir(ctx, &ls, r, outArg, []string{}, false, &logb); xerr != nil {
+					break
+				}
 			}
 		}
 		cf.Close()
@@ -565,7 +596,11 @@ func famC17(g *Gen, o *Out, n int, thorough bool) {
 			res = "err"
 		}
 		line := fmt.Sprintf("extract sb=%s out=%s pre=%s roots=%s", hx([]byte(sb)), hx([]byte(outArg)), entriesStr(before), strings.Join(rootStrs, ";"))
-		if strings.Contains(line, "other!") {
+		if useCli {
+			o.Line(fmt.Sprintf("extractcli p=%s sb=%s out=%s pre=%s roots=%s", hx([]byte(cliPath)), hx([]byte(sb)), hx([]byte(outArg)), entriesStr(before), strings.Join(rootStrs, ";")),
+				fmt.Sprintf("_r=%s outside=%s", res, outside))
+			o.Count("cli/" + res + "/outside=" + outside)
+		} else if strings.Contains(line, "other!") {
 			o.Line(line, "skip")
 		} else {
 			o.Line(line, fmt.Sprintf("r=%s tree=%s outside=%s", res, entriesStr(after), outside))
